@@ -1,4 +1,4 @@
-\* quick, exhaustive: 3 connections (busy / idle keep-alive / mid-request in every combination) x 1 caller x 1 hook
+\* thorough, exhaustive: 3 connections (busy / idle keep-alive / mid-request in every combination) x 1 caller x 1 hook
 CONSTANTS
   Conns = {c1, c2, c3}
   Callers = {k1}
